@@ -120,6 +120,7 @@ struct Result
   LD minAngGap   = 1e30L; // smallest angular distance of a candidate to a sector boundary (radians)
   LD minFaultGap = 1e30L; // smallest normalised orientation determinant met in the fault tests (0 = degenerate)
   bool quotaBites = false; // some candidate dropped by nsmax or nmaxi
+  int nFaultSplit = 0;     // samples rejected by the fault checker
   bool partialRound = false; // the nmaxi cycling stopped in the middle of a round
 };
 
@@ -185,7 +186,7 @@ inline Result moving(const std::vector<Sample>& data, const Sample& tgt, int ita
           // a sample sitting on the target gives a zero-length segment: never split, never ambiguous
           if (!(tgt.x[0] == p.x[0] && tgt.x[1] == p.x[1])) r.minFaultGap = std::min(r.minFaultGap, gap);
         }
-      if (split) continue;
+      if (split) { r.nFaultSplit++; continue; }
     }
     std::vector<LD> d(nd), comp(nd);
     for (int k = 0; k < nd; k++) d[k] = (LD)p.x[k] - (LD)tgt.x[k];
